@@ -21,6 +21,10 @@ func sanitizerForContext(c context) ([]string, error) {
 		}
 		return nil, fmt.Errorf("actions must not occur in the element content context of a %q element", c.element.name)
 	}
+	if c.attr.continued {
+		// Only a prefix of the attribute name is known, e.g. "src" for `src{{/* c */}}doc`.
+		return nil, fmt.Errorf("actions must not occur in the %q attribute value context of a %q element", c.attr.name, c.element.name)
+	}
 	switch c.state {
 	case stateTag, stateAttrName, stateAfterName:
 		return nil, fmt.Errorf("actions must not affect element or attribute names")
@@ -101,7 +105,7 @@ func sanitizationContextForAttributeValue(c context) (sanitizationContext, error
 // template that is called from inside attribute values.
 func attributeValueClass(c context) string {
 	sc, err := sanitizationContextForAttributeValue(c)
-	if err != nil || c.element.continued {
+	if err != nil || c.element.continued || c.attr.continued {
 		return "Invalid"
 	}
 	s := sc.String()
